@@ -6,7 +6,7 @@ CONSTANTS
   NG = 1
   PF = "pp2m"
   TF = "t22s"
-  PG = "pp2s"
+  PG = "pp2k"
   TG = "t22ds"
   LAYOUTS = {"dfs"}
   EMIT = TRUE
